@@ -92,12 +92,37 @@ func (e *bigEnv) linOf(v ssa.Value, at ssa.Instruction, depth int) (linForm, boo
 
 // lenForm: length of a byte string as a linear form, by its canonical layout (pad32 is 32 bytes, literals count)
 func (e *bigEnv) lenForm(v ssa.Value, at ssa.Instruction) linForm {
+	// a re-slice with linear bounds: high - low (data[:64] is 64 bytes, d[len(d)-32:] is 32)
+	if sl, ok := v.(*ssa.Slice); ok && isByteSlice(sl.Type()) && e.lenDepth < 6 {
+		e.lenDepth++
+		lo, okL := linForm{coef: map[string]int64{}}, true
+		if sl.Low != nil {
+			lo, okL = e.linOf(sl.Low, at, 0)
+		}
+		var hi linForm
+		okH := true
+		if sl.High != nil {
+			hi, okH = e.linOf(sl.High, at, 0)
+		} else if isByteSlice(sl.X.Type()) {
+			hi = e.lenForm(sl.X, at)
+		} else {
+			okH = false
+		}
+		e.lenDepth--
+		if okL && okH {
+			return hi.add(lo, -1)
+		}
+	}
 	x := e.bytesOf(v, at)
 	switch x.Op {
 	case "lit":
 		return linForm{k: int64(len(x.Args)), coef: map[string]int64{}}
 	}
-	return linForm{coef: map[string]int64{"len(" + stripCopies(x).String() + ")": 1}}
+	sym := "len(" + stripCopies(x).String() + ")"
+	if k, ok := e.lenConst[sym]; ok {
+		return linForm{k: k, coef: map[string]int64{}} // a length fixed by the assumption the caller is evaluating under
+	}
+	return linForm{coef: map[string]int64{sym: 1}}
 }
 
 type laySeg struct {
@@ -108,18 +133,23 @@ type laySeg struct {
 }
 
 // layoutOf: the canonical concatenation written into the fresh buffer mk, or nil
-func (e *bigEnv) layoutOf(mk *ssa.MakeSlice, at ssa.Instruction) *X {
-	total, ok := e.linOf(mk.Len, mk, 0)
+func (e *bigEnv) layoutOf(mk0 *ssa.MakeSlice, at ssa.Instruction) *X {
+	total, ok := e.linOf(mk0.Len, mk0, 0)
 	if !ok {
 		return nil
 	}
+	return e.layoutBuf(mk0, total, at)
+}
+
+// layoutBuf: layoutOf for any fresh buffer value of known total length (make([]byte, CONST) is a sliced array)
+func (e *bigEnv) layoutBuf(mk ssa.Value, total linForm, at ssa.Instruction) *X {
 	one := linForm{k: 1, coef: map[string]int64{}}
 	var segs []laySeg
 	for _, u := range *mk.Referrers() {
 		switch y := u.(type) {
 		case *ssa.DebugRef, *ssa.Return, *ssa.MakeInterface, *ssa.Phi:
 		case *ssa.Store:
-			if y.Addr == ssa.Value(mk) {
+			if y.Addr == mk {
 				return nil
 			}
 		case *ssa.IndexAddr:
@@ -137,7 +167,7 @@ func (e *bigEnv) layoutOf(mk *ssa.MakeSlice, at ssa.Instruction) *X {
 				}
 			}
 		case *ssa.Slice:
-			if y.X != ssa.Value(mk) {
+			if y.X != mk {
 				continue
 			}
 			for _, u2 := range *y.Referrers() {
@@ -155,9 +185,6 @@ func (e *bigEnv) layoutOf(mk *ssa.MakeSlice, at ssa.Instruction) *X {
 					}
 					return nil
 				}
-				if y.High != nil {
-					return nil
-				}
 				off := linForm{coef: map[string]int64{}}
 				if y.Low != nil {
 					o, ok := e.linOf(y.Low, call, 0)
@@ -166,12 +193,20 @@ func (e *bigEnv) layoutOf(mk *ssa.MakeSlice, at ssa.Instruction) *X {
 					}
 					off = o
 				}
-				segs = append(segs, laySeg{off: off, n: e.lenForm(call.Call.Args[1], call), form: e.bytesOf(call.Call.Args[1], call), in: call})
+				n := e.lenForm(call.Call.Args[1], call)
+				if y.High != nil {
+					// a bounded window: only when it is exactly as long as the source (the copy is complete)
+					hi, ok := e.linOf(y.High, call, 0)
+					if !ok || !hi.add(off, -1).equal(n) {
+						return nil
+					}
+				}
+				segs = append(segs, laySeg{off: off, n: n, form: e.bytesOf(call.Call.Args[1], call), in: call})
 			}
 		case *ssa.Call:
-			if bi, isBi := y.Call.Value.(*ssa.Builtin); isBi && bi.Name() == "copy" && y.Call.Args[0] == ssa.Value(mk) {
+			if bi, isBi := y.Call.Value.(*ssa.Builtin); isBi && bi.Name() == "copy" && y.Call.Args[0] == mk {
 				segs = append(segs, laySeg{off: linForm{coef: map[string]int64{}}, n: e.lenForm(y.Call.Args[1], y), form: e.bytesOf(y.Call.Args[1], y), in: y})
-			} else if isBi && bi.Name() == "append" && y.Call.Args[0] == ssa.Value(mk) {
+			} else if isBi && bi.Name() == "append" && y.Call.Args[0] == mk {
 				continue
 			}
 		default:
@@ -264,6 +299,15 @@ func (e *bigEnv) layoutOf(mk *ssa.MakeSlice, at ssa.Instruction) *X {
 				}
 			default:
 				return nil
+			}
+			// a literal after a constant gap is the literal with that many zero bytes in front
+			if len(width.coef) == 0 && last.form.Op == "lit" && width.k-int64(len(last.form.Args)) >= 0 && width.k <= 64 {
+				var zs []*X
+				for i := int64(0); i < width.k-int64(len(last.form.Args)); i++ {
+					zs = append(zs, K(0))
+				}
+				parts = append(parts, Op("lit", append(zs, last.form.Args...)...))
+				return concatX(parts...)
 			}
 			parts = append(parts, Op("padleft", wx, last.form))
 			return concatX(parts...)
